@@ -105,7 +105,7 @@ class Slicer:
                 if c.get("res") and c["res"]["path"] != c["path"]:
                     path = c["path"] + " => " + c["res"]["path"]
             else:
-                path = "<indirect>"
+                path = "<indirect>:" + show(self.operand(node["indirect"], depth, seen))
             args = tuple(self.operand(a, depth, seen) for a in node["args"])
             decl = c["path"] if c else path
             if decl in TRANSPARENT and len(args) == 1:
@@ -286,6 +286,8 @@ def show(t, depth=0):
         return "arg%d" % t[1]
     if h == "upvar":
         return "^%s" % t[1]
+    if h == "fnptr":
+        return "fn:" + t[1].split(" => ")[0]
     if h == "const":
         return "%s" % (t[2],)
     if h == "field":
